@@ -181,6 +181,56 @@ func (c *Call) Run(out io.Writer) error {
 			return closest.ClosestN(c.N, d, strings.NewReader(c.Query), strings.NewReader(c.Target), m, out, c.Table, c.Threads)
 		}
 		return closest.Closest(strings.NewReader(c.Query), strings.NewReader(c.Target), m, out, c.Threads)
+	case "readersconc":
+		// two FASTA readers of different kinds and gap modes at work at once on the same bytes (c.Msa): the
+		// streaming reader with hard gaps and the list reader with soft gaps; each result as decoded text
+		res := make([]string, 2)
+		done := make(chan int, 2)
+		zzvs.Go(func() {
+			ch := make(chan fastaio.EncodedFastaRecord, 4)
+			cErr := make(chan error, 1)
+			cDone := make(chan bool, 1)
+			zzvs.Go(func() { fastaio.ReadEncodeAlignment(strings.NewReader(c.Msa), true, ch, cErr, cDone) }, "readersconc")
+			var sb strings.Builder
+			for fin := false; !fin; {
+				switch zzvs.Select("readersconc.sel", false, zzvs.CaseRecv(ch), zzvs.CaseRecv(cErr), zzvs.CaseRecv(cDone)) {
+				case 0:
+					r := <-ch
+					fmt.Fprintf(&sb, "%s:%v;", r.ID, r.Seq)
+				case 1:
+					e := <-cErr
+					sb.WriteString("error " + e.Error())
+					fin = true
+				case 2:
+					<-cDone
+					for len(ch) > 0 {
+						r := <-ch
+						fmt.Fprintf(&sb, "%s:%v;", r.ID, r.Seq)
+					}
+					fin = true
+				}
+			}
+			res[0] = "stream/hard " + sb.String()
+			zzvs.PreSend(done, "readersconc")
+			done <- 0
+		}, "readersconc")
+		zzvs.Go(func() {
+			recs, err := fastaio.ReadEncodeAlignmentToList(strings.NewReader(c.Msa), false)
+			var sb strings.Builder
+			for _, r := range recs {
+				fmt.Fprintf(&sb, "%s:%v;", r.ID, r.Seq)
+			}
+			if err != nil {
+				sb.WriteString("error " + err.Error())
+			}
+			res[1] = "list/soft " + sb.String()
+			zzvs.PreSend(done, "readersconc")
+			done <- 1
+		}, "readersconc")
+		zzvs.Recv(done, "readersconc")
+		zzvs.Recv(done, "readersconc")
+		io.WriteString(out, strings.Join(res, "\n")+"\n")
+		return nil
 	case "libconc":
 		// the nucleotide-table library functions used from c.Threads goroutines at once (each on its own
 		// whitespace-separated sequence of c.Query); results in goroutine-index order
